@@ -335,6 +335,7 @@ struct Stats {
     token_roundtrips: u64,
     in_place: u64,
     rejected_decodes: u64,
+    wide_roundtrips: u64,
     checks: u64,
     c05_streams: u64,
     c05_with_repeats: u64,
@@ -712,11 +713,102 @@ fn run_case(case: &Case) -> Out {
     if PROP05.load(std::sync::atomic::Ordering::Relaxed) {
         return grid!(run_c05, 0, m, case, [0]);
     }
-    if case.is_set {
-        grid!(run_set, n, m, case, [0, 1, 2, 3, 5, 8])
-    } else {
-        grid!(run_map, n, m, case, [0, 1, 2, 3, 5, 8])
+    let mut out = if case.is_set { grid!(run_set, n, m, case, [0, 1, 2, 3, 5, 8]) } else { grid!(run_map, n, m, case, [0, 1, 2, 3, 5, 8]) };
+    // one case in 48 also round-trips containers of more than 255 entries (positions, counts
+    // and indices that do not fit a byte)
+    if case.hash64() % 48 == 0 && out.viol.is_none() {
+        if let Some(v) = wide_round_trip(case) {
+            out.viol = Some(v);
+        }
+        out.st.wide_roundtrips += 1;
     }
+    out
+}
+
+/// `Map<u16,u32,300>` / `Set<u16,300>` holding 250..300 entries (in an order made by a few
+/// removals and re-insertions), through bincode and the token stream, into 300 and 310 slots.
+fn wide_round_trip(case: &Case) -> Option<String> {
+    let seedv: usize = case.ops.iter().fold(case.univ as usize, |a, o| a.wrapping_mul(31).wrapping_add(o[0] as usize + o[1] as usize * 7 + o[2] as usize * 13));
+    let count = 250 + seedv % 51;
+    let mut m: Box<Map<u16, u32, 300>> = Box::new(Map::new());
+    let mut s: Box<Set<u16, 300>> = Box::new(Set::new());
+    for i in 0..count {
+        let k = (i as u16).wrapping_mul(7).wrapping_add(3);
+        m.insert(k, 0xA000 + i as u32);
+        s.insert(k);
+    }
+    for o in case.ops.iter().take(6) {
+        let k = ((o[1] as usize * count) >> 8) as u16 * 7 + 3;
+        if let Some(v) = m.remove(&k) {
+            m.insert(k, v);
+        }
+        if s.remove(&k) {
+            s.insert(k);
+        }
+    }
+    if m.len() != count || s.len() != count {
+        return None;
+    }
+    let cfg = bincode::config::legacy();
+    let mut buf = vec![0u8; 16 + 300 * 8];
+    macro_rules! bin {
+        ($x:expr, $t:ty, $what:expr) => {{
+            match silent(|| bincode::serde::encode_into_slice(&*$x, &mut buf, cfg)) {
+                Ok(Ok(n)) => match silent(|| bincode::serde::decode_from_slice::<$t, _>(&buf[..n], cfg).map(|(d, used)| (Box::new(d), used))) {
+                    Ok(Ok((d, used))) => {
+                        if !(*d == *$x) || d.len() != count || used != n {
+                            return Some(format!("{}: bincode round trip of {count} entries gives {} entries (== original: {}), consumed {used} of {n} bytes", $what, d.len(), *d == *$x));
+                        }
+                    }
+                    other => return Some(format!("{}: bincode decode of {count} entries failed: {:?}", $what, other.map(|r| r.map(|_| ())))),
+                },
+                other => return Some(format!("{}: bincode encode of {count} entries failed: {other:?}", $what)),
+            }
+        }};
+    }
+    bin!(m, Map<u16, u32, 300>, "Map<u16,u32,300> -> 300 slots");
+    bin!(m, Map<u16, u32, 310>, "Map<u16,u32,300> -> 310 slots");
+    bin!(s, Set<u16, 300>, "Set<u16,300> -> 300 slots");
+    bin!(s, Set<u16, 310>, "Set<u16,300> -> 310 slots");
+    // token stream with and without size hints
+    let mut toks: Vec<Tok> = Vec::new();
+    match silent(|| m.serialize(Rec(&mut toks))) {
+        Ok(Ok(())) => {
+            if toks.first() != Some(&Tok::MapStart(Some(count))) || toks.len() != 2 * count + 2 {
+                return Some(format!("Map<u16,u32,300>: serializer announced {:?} and emitted {} tokens for {count} entries", toks.first(), toks.len()));
+            }
+            for hint in [true, false] {
+                let mut de = TokDe::new(&toks, hint);
+                match silent(|| Map::<u16, u32, 300>::deserialize(&mut de).map(Box::new)) {
+                    Ok(Ok(d)) => {
+                        if !(*d == *m) || d.len() != count {
+                            return Some(format!("Map<u16,u32,300>: token stream round trip (size hints {hint}) gives {} entries for {count}", d.len()));
+                        }
+                    }
+                    other => return Some(format!("Map<u16,u32,300>: token stream decode of {count} entries (size hints {hint}) failed: {:?}", other.map(|r| r.map(|_| ())))),
+                }
+            }
+        }
+        other => return Some(format!("Map<u16,u32,300>: serialize failed: {other:?}")),
+    }
+    let mut toks: Vec<Tok> = Vec::new();
+    match silent(|| s.serialize(Rec(&mut toks))) {
+        Ok(Ok(())) => {
+            for hint in [true, false] {
+                let mut de = TokDe::new(&toks, hint);
+                match silent(|| Set::<u16, 300>::deserialize(&mut de).map(Box::new)) {
+                    Ok(Ok(d)) => {
+                        if !(*d == *s) || d.len() != count {
+                            return Some(format!("Set<u16,300>: token stream round trip (size hints {hint}) gives {} elements for {count}", d.len()));
+                        }
+                    }
+                    other => return Some(format!("Set<u16,300>: token stream decode of {count} elements (size hints {hint}) failed: {:?}", other.map(|r| r.map(|_| ())))),
+                }
+            }
+        }
+        other => return Some(format!("Set<u16,300>: serialize failed: {other:?}")),
+    }
+    None
 }
 
 // ------------------------------------------------------------------------------------------
@@ -944,6 +1036,7 @@ fn main() {
                             s.token_roundtrips += out.st.token_roundtrips;
                             s.in_place += out.st.in_place;
                             s.rejected_decodes += out.st.rejected_decodes;
+                            s.wide_roundtrips += out.st.wide_roundtrips;
                             s.c05_streams += out.st.c05_streams;
                             s.c05_with_repeats += out.st.c05_with_repeats;
                             s.c05_skipped_overflow += out.st.c05_skipped_overflow;
@@ -990,6 +1083,7 @@ fn main() {
         st.token_roundtrips += s.token_roundtrips;
         st.in_place += s.in_place;
         st.rejected_decodes += s.rejected_decodes;
+        st.wide_roundtrips += s.wide_roundtrips;
         st.c05_streams += s.c05_streams;
         st.c05_with_repeats += s.c05_with_repeats;
         st.c05_skipped_overflow += s.c05_skipped_overflow;
@@ -1095,6 +1189,7 @@ fn main() {
                 ("token_stream_roundtrips_with_and_without_size_hints".into(), J::N(st.token_roundtrips as f64)),
                 ("deserialize_in_place_into_nonempty_targets".into(), J::N(st.in_place as f64)),
                 ("failing_decodes_of_truncated_input_before_the_round_trips".into(), J::N(st.rejected_decodes as f64)),
+                ("round_trips_of_containers_with_250_to_300_entries".into(), J::N(st.wide_roundtrips as f64)),
                 ("profile".into(), J::S(if cfg!(debug_assertions) { "dev (debug assertions on)".into() } else { "release (debug assertions off)".to_string() })),
                 ("cases_with_swap_removal".into(), J::N(st.swap_removals as f64)),
                 ("cases_len_ge2".into(), J::N(st.len_ge2 as f64)),
